@@ -32,6 +32,7 @@ BOUNDS = {
     "flow_rules": "3 base tags (final, pre-release, pre-release+post) x 11 branch names (default GitFlow rules; numeric segments, empty segments, non-ASCII) x distance {0,3} x dirty x post-mode {default, tag, commit} x label/number flags x hash lengths {1,5,10}: 1716 runs of the real flow pipeline (source none, output zerv) compared with the statement's rules written as arithmetic; branch hash: digit count, determinism",
     "pep440_spellings": "10 versions in 4-12 spellings each (case, separators, alternative labels, leading zeros, v prefix, trailing zero release numbers, explicit epoch 0, implicit numbers): every spelling accepted, all pairs within a group compare Equal and ==, representatives of different groups differ",
     "bump_sequence": "3 start versions x all 28 pairs of levels (7 numeric levels + pre-release label) x 9 override/bump combinations x {no, bump, override} core index operation = 2268 argument sets: apply_component_processing against the real per-level handlers applied by hand in the documented order",
+    "convert_roundtrip": "about 21000 canonical SemVer shapes X.Y.Z[-[epoch.E.][label.N.][post.P.][dev.D]][+ids] (4 cores incl. 2^32-1, E in {-, 1, 2^32-1}, 3 labels x 4 numbers, post / dev in {-, 0, n, 2^32-1}, 5 build texts) through SemVer -> Zerv -> SemVer / PEP 440 -> Zerv -> SemVer with the real From impls and parsers, against the forms written in the statement; about 7000 accepted PEP 440 spellings (1-5 release numbers, every label spelling, implicit numbers, local parts incl. numbers above u32::MAX): fixed point through Zerv, SemVer rendering accepted and a fixed point, back to an equal version for at most three release numbers; 7 SemVer inputs with a number above 2^32-1 for the no-silent-change clause",
     "ron_roundtrip": "38 schemas (16 fixed presets, custom schemas with empty / one-level / reversed / full precedence orders, 14 schemas with awkward literal texts) x 18 variable sets (quotes, backslashes, newlines, tabs, Unicode, RON-looking text; custom JSON objects, arrays, null, strings) = 684 objects: Display -> from_str equals the object, re-emission byte-identical, SemVer / PEP 440 rendering equal through the pipe",
     "semver_roundtrip": "4 cores x 308 pre-release lists (<=2 identifiers from 17, incl. leading-zero alphanumerics, hyphens, numerics around u64::MAX) x 12 build lists x {'', 'v'}: parse, print, compare with the input; 3 cores above u64::MAX; 22 strings outside the grammar must be rejected",
     "pep440_roundtrip": "6 epochs x 6 releases x ~110 pre-release spellings x 9 post x 5 dev x 8 local spellings x {'', v, V}, thinned to ~155k strings, each with its normal form computed from the fields (not by parsing): accepted, prints the normal form, normal form re-parses to itself and compares equal; 20 strings outside the grammar must be rejected",
@@ -42,6 +43,7 @@ BOUNDS = {
 
 
 THOROUGH = {
+    "convert_roundtrip": "the same shapes with 7 numbers per field (about 80000 cases) and every combination of the PEP 440 spellings",
     "semver_order": "600 random versions (numbers up to u64::MAX, identifier lists up to length 4 over [0-9a-zA-Z-]), 60000 random pairs/triples: reference precedence, antisymmetry, transitivity, == consistency",
     "pep440_order": "600 random versions (epoch, 1-4 release numbers, pre/post/dev with and without numbers, locals up to 3 segments), 60000 random pairs/triples: reference key, antisymmetry, transitivity, == consistency",
     "sanitize": "120000 random texts up to length 24 over ASCII, separators, whitespace and non-ASCII letters/digits/case-folding look-alikes under random settings",
